@@ -2230,6 +2230,9 @@ class Side:
                     vert.alpha,
                     vert.triangle_a,
                     vert.triangle_b,
+                    vert.multi_blend,
+                    vert.multi_alpha,
+                    [col.copy() for col in vert.multi_colors] if vert.multi_colors is not None else None,
                 ) for vert in self._disp_verts
             ]
         if self.strata_points is not None:
